@@ -2,8 +2,10 @@
 Props/C13History.lean — C13, decision-rule part, stated in terms of the HISTORY of runs.
 
 Props/C13.lean states the rule for "recorded p-values `pv`" (an existential list); nothing there
-says that the recorded list is what the runs returned — a `Run` that stored only the newest
-p-value would satisfy every theorem of that file (see the mutant at the end of this file).
+says that the recorded list is what the runs returned: on the two-run history `twoRuns` at the
+end of this file a mutant `Run` that stores only the newest p-value satisfies the conclusion of
+`C13.state_rule` and violates the conclusions of this file (ONE instance; that the mutant satisfies
+`C13.state_rule` on every history is plausible but NOT proved).
 Here the rule is stated as the property words it: after ANY history of runs of a new
 TestStructure, with `returned name os` = all p-values the runs `os` returned under `name`, in
 order (single floats / ints count under "result", InsufficientDataError returns nothing):
@@ -345,11 +347,14 @@ def runHistoryForget (N : Num α) : TS α → List (Outcome α) → Except PyErr
 /-- the two-run history on which the mutant and the model differ. -/
 def twoRuns : List (Outcome Nat) := [.named [("a", 2)], .named [("a", 2)]]
 
-/-- DISCRIMINATION.  On `twoRuns` the mutant ends with the list `[2]` and state UNDECIDED.
-(1) It SATISFIES the conclusion of `C13.state_rule` (the existential-list statement): with
-    `pv = [2]`, `c = 2` the three equivalences hold.
-(2) It VIOLATES the conclusions of `pvalues_are_history` and of `state_rule` above: the history
-    returned `[2, 2]`, whose combination 0 is below the fail level 1, so the rule demands FAILED.
+/-- DISCRIMINATION ON ONE HISTORY (an instance, not a theorem about the mutant: nothing here says that
+the mutant satisfies `C13.state_rule` for every history).  On this history, `twoRuns`, the mutant ends
+with the list `[2]` and state UNDECIDED, and
+(1) on this history the mutant satisfies the conclusion of `C13.state_rule` (the existential-list
+    statement) for the name "a": with `pv = [2]`, `c = 2` the equivalences for its state hold;
+(2) on this history the mutant violates the conclusions of `pvalues_are_history` and of
+    `failed_iff_history` / `state_rule` above: the history returned `[2, 2]`, whose combination 0 is
+    below the fail level 1, so the rule demands FAILED.
 The model itself (`runHistory`) ends FAILED with the list `[2, 2]`. -/
 example :
     (∃ ts, runHistoryForget C13.milli (TS.init 1 10 1) twoRuns = .ok ts ∧
